@@ -134,6 +134,11 @@ impl<'r> G<'r> {
                 var(self.active_loops[i])
             }
             8 => Expr::Num(format!("{}.{}", self.rng.below(dim as u64 + 1), self.rng.below(10))),
+            9 if self.rng.chance(1, 3) => {
+                // a bare variable that nothing ever assigns as the whole subscript (reads as 0, warns when warnings are on)
+                self.feat("subscript-unassigned-variable");
+                var(self.rng.s(&["UQ", "UQ2"]))
+            }
             _ => Expr::Num(self.rng.below(dim as u64 + 1).to_string()),
         }
     }
@@ -424,6 +429,18 @@ impl<'r> G<'r> {
                 "18446744073709551616", "-0.0", "007", "+5", "-9223372036854775809", ".5", "100000000000000000000000",
                 // blanks and tabs at the end of a reply, also behind a quote that is never closed
                 "\"ADA  ", "\"open\t", "tail  ", "\" \t"]).to_string()
+        };
+        let good = if self.rng.chance(1, 40) {
+            // replies longer than any fixed-size input buffer (also with a multi-byte character across byte 239)
+            match (numeric, self.rng.below(3)) {
+                (true, 0) => format!("{}125", "0".repeat(238)),
+                (true, _) => format!("{}7 , surplus", " ".repeat(250)),
+                (false, 0) => "x".repeat(300),
+                (false, 1) => format!("{}é{}", "y".repeat(238), "z".repeat(20)),
+                (false, _) => format!("{}word, and more", " ".repeat(240)),
+            }
+        } else {
+            good
         };
         let good = if numeric && self.rng.chance(1, 8) {
             self.rng.s(&["10000000000000000000", "-0", "123456789012345678901234567890", "9007199254740993", "+5", ".5", "007", "-.25"]).to_string()
